@@ -495,6 +495,9 @@ class Bus (objects.DBusObject):
         }
 
         for item in rule.split(','):
+            if not item:
+                continue  # the empty rule (no constraints) matches everything
+
             k, v = item.split('=')
 
             value = v[1:-1]
